@@ -51,12 +51,16 @@ HARNESSES = {
     "c20": {"src": _HSRC + _iface + _stubs, "variant": "asan", "flags": _INC, "per_src_flags": _per},
 }
 
+# crashes of the C++ library inside a *twin* are expected for precondition violations (and restart the worker):
+# no symbolisation, so that a restart costs milliseconds
+_ENV = {"ASAN_OPTIONS": "detect_leaks=0:abort_on_error=1:allocator_may_return_null=1:symbolize=0",
+        "UBSAN_OPTIONS": "print_stacktrace=0"}
+
 def _runs(tier):
+    # one run, three phases inside the harness: main (all entry points x all tuples), oom (failing allocations), life (create -> op -> delete)
     if tier == "quick":
-        return [{"harness": "c20", "args": ["--mode", "main"], "budget": 200},
-                {"harness": "c20", "args": ["--mode", "oom"], "budget": 100}]
-    return [{"harness": "c20", "args": ["--mode", "main"], "budget": 1800},
-            {"harness": "c20", "args": ["--mode", "oom"], "budget": 600}]
+        return [{"harness": "c20", "args": ["--mode", "all"], "budget": 280, "env": _ENV}]
+    return [{"harness": "c20", "args": ["--mode", "all"], "budget": 2500, "env": _ENV}]
 
 CHECKS = {
     "C20": {"runs": _runs, "level": "model_checking", "deadline": {"quick": 300, "thorough": 2700},
